@@ -16,6 +16,10 @@ import (
 type fsm struct {
 	peer *peer
 
+	// direction is the index (in or out) of this fsm in its peer, set before
+	// the fsm is started and never changed
+	direction int
+
 	// the bgp ID received in the latest open message
 	remoteID uint32
 
